@@ -18,11 +18,17 @@ fn in_pool<R: Send>(threads: usize, f: impl FnOnce() -> R + Send) -> R {
     rayon::ThreadPoolBuilder::new().num_threads(threads).build().unwrap().install(f)
 }
 
+mod two;
 mod vk;
 
 fn main() {
     let args: Vec<String> = env::args().collect();
     let mode = args.get(1).map(|s| s.as_str()).unwrap_or("");
+    if mode == "c01_two_proofs" {
+        two::run(&|k, case, got, want| report(k, case, got, want));
+        println!("{{\"done\": \"{}\"}}", mode);
+        return;
+    }
     if mode == "c16_vk" {
         vk::run(&|k, case, got, want| report(k, case, got, want));
         println!("{{\"done\": \"{}\"}}", mode);
